@@ -260,3 +260,270 @@ def explicit_fsync(crate):
 
     _check_paths(ex, res, outs, per_path)
     return P.finish(ex, res, ["synced", "sync failed", "no active blob"])
+
+
+def _closed_blobs_hook(n_term, cap):
+    """call_hook: HierarchicalFilters::iter_possible_childs(_rev) / iter() return an iterator over n symbolic children"""
+    def hook(ex, st, cname, args, dty):
+        if cname in ("HierarchicalFilters::iter_possible_childs_rev", "HierarchicalFilters::iter_possible_childs"):
+            slots = []
+            for k in range(cap):
+                tup = Obj("(usize, &Leaf<Blob<K>>)")
+                tup.fields[(None, 0)] = Sym(z3.BitVec("child_id_%d" % k, 64), "usize")
+                leaf = Obj("hierarchical::Leaf<blob::core::Blob<K>>")
+                lc = st.new_cell(leaf)
+                tup.fields[(None, 1)] = Ref(lc, (), False, "&hierarchical::Leaf<blob::core::Blob<K>>")
+                slots.append((z3.ULT(BV64(k), n_term), tup))
+            it = IT.IterV(slots, "?", True, n_term)
+            st.events.append(("call", cname, args, it))
+            return [(it, None)]
+        return None
+    return hook
+
+
+def latest_entry_fold(crate, B=3):
+    """C01: Storage::get_latest_entry = fold of ReadResult::latest over [active blob's answer] ++ [closed blobs' answers in
+    iteration order]: the result is the FIRST answer of maximal timestamp (NotFound counts as lowest); every candidate blob
+    is consulted; an Err of any blob is returned."""
+    res = P.ObResult("latest_entry_fold[B<=%d]" % B)
+    fn = crate.method("Storage", "get_latest_entry")
+    res.functions = ["Storage::get_latest_entry (async body)", "ReadResult<Entry>::latest", "ReadResult<Entry>::timestamp",
+                     "Entry::timestamp", "RecordHeader::timestamp", "BlobRecordTimestamp::new"]
+    res.bounds = "active blob present/absent, <= %d closed candidate blobs, arbitrary per-blob answers" % B
+    ex = P.mk_executor(crate, cap=B, loop_bound=B + 3,
+                       inline=INLINE_BLOB + [r"^ReadResult::(latest|timestamp)$", r"^Entry::timestamp$", r"^Option::"])
+    st = State()
+    n = z3.BitVec("closed_candidates", 64)
+    st.pc.append(z3.ULE(n, BV64(B)))
+    ex.call_hook = _closed_blobs_hook(n, B)
+    safe = Obj("storage::core::Safe<K>")
+    ab = Obj("std::option::Option<std::boxed::Box<async_lock::RwLock<blob::core::Blob<K>>>>")
+    act = z3.BitVec("active_present", 64)
+    st.pc.append(z3.Or(act == BV64(0), act == BV64(1)))
+    ab.discr = Sym(act, "isize")
+    ablock = Obj("async_lock::RwLock<blob::core::Blob<K>>")
+    bc = st.new_cell(ablock)
+    ab.fields[("Some", 0)] = Ref(bc, (), True, "Box<async_lock::RwLock<blob::core::Blob<K>>>")
+    safe.fields[(None, crate.field_index("Safe", "active_blob"))] = ab
+    sc = st.new_cell(safe)
+    key = Ref(st.new_cell(Obj("K")), (), False, "&K")
+    meta = Obj("std::option::Option<&record::record::Meta>")
+    outs = P.drive_async(ex, st, fn, [Ref(sc, (), False, "&storage::core::Safe<K>"), key, meta])
+    res.paths = len(outs)
+    RR = crate.enums["ReadResult"]
+    hf = P.record_header_fields(crate)
+
+    def rr_view(o, rr):
+        d = ex.get_discr(o, rr).t
+        ent = ex._get_field(o, rr, "Found", 0, "blob::entry::Entry")
+        hdr_o = ex._get_field(o, ent, None, crate.field_index("Entry", "header"), "record::record::Header")
+        ts_found = ex._get_field(o, hdr_o, None, hf["timestamp"], "u64").t
+        ident = ex._get_field(o, hdr_o, None, hf["blob_offset"], "u64").t
+        dts = ex._get_field(o, rr, "Deleted", 0, "BlobRecordTimestamp")
+        ts_del = ex._get_field(o, dts, None, 0, "u64").t
+        ts = z3.If(d == BV64(RR["Found"]), ts_found, ts_del)
+        has = d != BV64(RR["NotFound"])
+        return d, ts, has, ident
+
+    def per_path(o, isok, payload):
+        evs = [e for e in P.events_of(o) if e[0] == "await" and "get_latest_entry" in e[1]]
+        answers = []
+        any_err = z3.BoolVal(False)
+        for e in evs:
+            r = e[3]
+            r_ok = ex.get_discr(o, r).t == BV64(0)
+            any_err = z3.Or(any_err, z3.Not(r_ok))
+            answers.append((r_ok, ex._get_field(o, r, "Ok", 0, "ReadResult<Entry>")))
+        # number of blobs consulted
+        expect_n = z3.If(act == BV64(1), n + 1, n)
+        if not P.prove(ex, res, o, z3.Implies(isok, BV64(len(evs)) == expect_n), "Ok => every candidate blob was consulted"):
+            return False
+        if not P.prove(ex, res, o, isok == z3.Not(any_err), "Err iff some blob answered Err"):
+            return False
+        if answers:
+            views = [rr_view(o, a[1]) for a in answers]
+            # reference winner: first maximal (has, ts)
+            w_d, w_ts, w_has, w_id = views[0]
+            for d, ts, has, ident in views[1:]:
+                better = z3.And(has, z3.Or(z3.Not(w_has), z3.UGT(ts, w_ts)))
+                w_d, w_ts, w_has, w_id = z3.If(better, d, w_d), z3.If(better, ts, w_ts), z3.Or(w_has, has), z3.If(better, ident, w_id)
+            P.cover(ex, res, o, z3.Not(isok), "a blob failed")
+            acc = payload.fields.get(("Ok", 0))
+            if acc is None:
+                return True
+            a_d, a_ts, a_has, a_id = rr_view(o, acc)
+            claim = z3.And(a_has == w_has,
+                           z3.Implies(w_has, z3.And(a_d == w_d, a_ts == w_ts)),
+                           z3.Implies(z3.And(w_has, w_d == BV64(RR["Found"])), a_id == w_id))
+            if not P.prove(ex, res, o, z3.Implies(isok, claim), "result = first answer of maximal timestamp"):
+                return False
+            if len(views) >= 2:
+                P.cover(ex, res, o, z3.And(isok, views[0][2], views[1][2], views[0][1] == views[1][1], views[0][0] != views[1][0]),
+                        "timestamp tie between two blobs with different kinds")
+                P.cover(ex, res, o, z3.And(isok, views[0][2], views[1][2], z3.UGT(views[1][1], views[0][1]), views[0][0] == BV64(RR["Found"])),
+                        "older blob holds the newer record while the first blob answers Found")
+        else:
+            acc = payload.fields.get(("Ok", 0))
+            if acc is not None:
+                if not P.prove(ex, res, o, z3.Implies(isok, ex.get_discr(o, acc).t == BV64(RR["NotFound"])), "no blobs => NotFound"):
+                    return False
+            P.cover(ex, res, o, isok, "no candidate blob")
+        P.cover(ex, res, o, z3.And(isok, BV64(len(evs)) == BV64(B + 1)), "active + all closed consulted")
+        P.cover(ex, res, o, z3.Not(isok), "a blob failed")
+        return True
+
+    _check_paths(ex, res, outs, per_path)
+    return P.finish(ex, res, ["timestamp tie between two blobs with different kinds",
+                              "older blob holds the newer record while the first blob answers Found",
+                              "no candidate blob", "active + all closed consulted", "a blob failed"])
+
+
+def _mk_entry(crate, name):
+    e = Obj("blob::entry::Entry")
+    h = P.mk_header(crate, name)
+    e.fields[(None, crate.field_index("Entry", "header"))] = h
+    return e, h
+
+
+def read_all_merge(crate, B=2, Lb=2):
+    """C02: Storage::read_all_with_deletion_marker merges the per-blob lists (each newest-first and cut after its own first
+    marker) into rank order (timestamp desc, blob recency, append recency) and cuts right after the first marker:
+    an input record is returned iff no input marker ranks strictly before it; order is rank order."""
+    res = P.ObResult("read_all_merge[blobs<=%d,per-blob<=%d]" % (B + 1, Lb))
+    fn = crate.method("Storage", "read_all_with_deletion_marker")
+    res.functions = ["Storage::read_all_with_deletion_marker (async body) + closures", "Entry::is_deleted", "Entry::timestamp",
+                     "RecordHeader::{is_deleted,timestamp}", "BlobRecordTimestamp::new", "<BlobRecordTimestamp as Ord>::cmp"]
+    res.bounds = "active blob present/absent, <= %d closed blobs, <= %d entries per blob" % (B, Lb)
+    total = (B + 1) * Lb
+    ex = P.mk_executor(crate, cap=total, loop_bound=max(B, total) + 3,
+                       inline=INLINE_BLOB + [r"^Entry::(timestamp|is_deleted)$", r"^Option::", r"^<BlobRecordTimestamp as (PartialOrd|Ord|PartialEq)>::",
+                                             r"^Inner::safe$"])
+    st = State()
+    n = z3.BitVec("closed_candidates", 64)
+    st.pc.append(z3.ULE(n, BV64(B)))
+    ex.call_hook = _closed_blobs_hook(n, B)
+    lists = []
+
+    def hook(ex_, st_, name, fargs, out_ty, dty):
+        if "read_all_entries_with_deletion_marker" not in name:
+            return None
+        k = len([e for e in st_.events if e[0] == "await" and "read_all_entries" in e[1]])
+        ents = []
+        for j in range(Lb):
+            e, h = _mk_entry(crate, "b%de%d" % (k, j))
+            ents.append(e)
+        ln = z3.BitVec("b%d_len" % k, 64)
+        vec = VecV("blob::entry::Entry", total, Sym(ln, "usize"), ents + [None] * (total - Lb))
+        st_.pc.append(z3.ULE(ln, BV64(Lb)))
+        # per-blob post-condition of get_all_with_deletion_marker: ts non-increasing, a marker only in last position
+        for j in range(Lb - 1):
+            a = ents[j].fields[(None, crate.field_index("Entry", "header"))]
+            b = ents[j + 1].fields[(None, crate.field_index("Entry", "header"))]
+            st_.pc.append(z3.Implies(z3.ULT(BV64(j + 1), ln), z3.And(z3.UGE(P.hdr(crate, a, "timestamp"), P.hdr(crate, b, "timestamp")),
+                                                                      P.hdr(crate, a, "flags") & 1 == 0)))
+        okv = z3.Bool("b%d_ok" % k)
+        r = Obj(out_ty)
+        r.discr = Sym(z3.If(okv, BV64(0), BV64(1)), "isize")
+        r.fields[("Ok", 0)] = vec
+        st_.events.append(("await", name, fargs, r))
+        return [(S.poll_ready(dty, r), None)]
+    ex.await_hook = hook
+    storage = Obj("storage::core::Storage<K>")
+    inner = Obj("storage::core::Inner<K>")
+    lock = Obj("tokio::sync::RwLock<storage::core::Safe<K>>")
+    safe = Obj("storage::core::Safe<K>")
+    ab = Obj("std::option::Option<std::boxed::Box<async_lock::RwLock<blob::core::Blob<K>>>>")
+    act = z3.BitVec("active_present", 64)
+    st.pc.append(z3.Or(act == BV64(0), act == BV64(1)))
+    ab.discr = Sym(act, "isize")
+    bc = st.new_cell(Obj("async_lock::RwLock<blob::core::Blob<K>>"))
+    ab.fields[("Some", 0)] = Ref(bc, (), True, "Box<async_lock::RwLock<blob::core::Blob<K>>>")
+    safe.fields[(None, crate.field_index("Safe", "active_blob"))] = ab
+    lock.fields[(None, 7000)] = safe
+    inner.fields[(None, crate.field_index("Inner", "safe"))] = lock
+    arc = Obj("std::sync::Arc<storage::core::Inner<K>>")
+    arc.fields[(None, 7001)] = inner
+    storage.fields[(None, crate.field_index("Storage", "inner"))] = arc
+    sc = st.new_cell(storage)
+    keyobj = Obj("K")
+    outs = P.drive_async(ex, st, fn, [Ref(sc, (), False, "&storage::core::Storage<K>"), keyobj])
+    res.paths = len(outs)
+    hidx = crate.field_index("Entry", "header")
+
+    def per_path(o, isok, payload):
+        evs = [e for e in P.events_of(o) if e[0] == "await" and "read_all_entries" in e[1]]
+        any_err = z3.BoolVal(False)
+        inputs = []   # (valid, ts, deleted, id) in concatenation (= rank tie-break) order
+        for e in evs:
+            r = e[3]
+            r_ok = ex.get_discr(o, r).t == BV64(0)
+            any_err = z3.Or(any_err, z3.Not(r_ok))
+            vec = r.fields[("Ok", 0)]
+            for j in range(Lb):
+                h = vec.elems[j].fields[(None, hidx)]
+                inputs.append((z3.ULT(BV64(j), vec.len.t), P.hdr(crate, h, "timestamp"), P.hdr(crate, h, "flags") & 1 == 1, P.hdr(crate, h, "seq")))
+        if not P.prove(ex, res, o, isok == z3.Not(any_err), "Err iff some blob answered Err"):
+            return False
+        expect_n = z3.If(act == BV64(1), n + 1, n)
+        if not P.prove(ex, res, o, z3.Implies(isok, BV64(len(evs)) == expect_n), "Ok => every candidate blob was read"):
+            return False
+        P.cover(ex, res, o, z3.Not(isok), "a blob failed")
+        out = payload.fields.get(("Ok", 0))
+        if out is None or not isinstance(out, VecV):
+            return True
+        # distinct identities
+        ids = [i[3] for i in inputs]
+        o.pc.append(z3.Distinct(ids) if len(ids) > 1 else z3.BoolVal(True))
+        outs_v = []
+        for k in range(out.cap):
+            e = out.elems[k]
+            if e is None:
+                outs_v.append(None)
+                continue
+            h = ex._get_field(o, e, None, hidx, "record::record::Header")
+            outs_v.append((P.hdrl(crate, ex, o, h, "timestamp"), P.hdrl(crate, ex, o, h, "flags") & 1 == 1, P.hdrl(crate, ex, o, h, "seq")))
+        olen = out.len.t
+        claims = []
+        # (1) membership: input i is returned iff no input marker ranks strictly before it
+        cnt = BV64(0)
+        for i, (vi, tsi, di, idi) in enumerate(inputs):
+            before = []
+            for m, (vm, tsm, dm, idm) in enumerate(inputs):
+                if m == i:
+                    continue
+                ranks_before = z3.Or(z3.UGT(tsm, tsi), z3.And(tsm == tsi, z3.BoolVal(m < i)))
+                before.append(z3.And(vm, dm, ranks_before))
+            hidden = z3.Or(before) if before else z3.BoolVal(False)
+            present = z3.Or([z3.And(z3.ULT(BV64(k), olen), ov[2] == idi) for k, ov in enumerate(outs_v) if ov is not None] or [z3.BoolVal(False)])
+            claims.append(z3.Implies(vi, present == z3.Not(hidden)))
+            cnt = cnt + z3.If(z3.And(vi, z3.Not(hidden)), BV64(1), BV64(0))
+        claims.append(olen == cnt)
+        # (2) order: rank order (ts desc; ties keep concatenation order)
+        for k in range(out.cap - 1):
+            a, b = outs_v[k], outs_v[k + 1]
+            if a is None or b is None:
+                claims.append(z3.Not(z3.ULT(BV64(k + 1), olen)))
+                continue
+            idx_a = BV64(0); idx_b = BV64(0)
+            for i, (vi, tsi, di, idi) in enumerate(inputs):
+                idx_a = z3.If(a[2] == idi, BV64(i), idx_a)
+                idx_b = z3.If(b[2] == idi, BV64(i), idx_b)
+            claims.append(z3.Implies(z3.ULT(BV64(k + 1), olen),
+                                     z3.Or(z3.UGT(a[0], b[0]), z3.And(a[0] == b[0], z3.ULT(idx_a, idx_b)))))
+        if not P.prove(ex, res, o, z3.Implies(isok, z3.And(claims)), "result = rank-ordered records cut after the first marker"):
+            return False
+        nblobs_nonempty = [z3.ULT(BV64(0), e[3].fields[("Ok", 0)].len.t) for e in evs]
+        if len(evs) >= 2:
+            P.cover(ex, res, o, z3.And(isok, nblobs_nonempty[0], nblobs_nonempty[1], z3.ULT(olen, cnt + 0) == False, z3.Or([z3.And(i[0], i[2]) for i in inputs])),
+                    "two blobs contribute and a marker is present")
+            P.cover(ex, res, o, z3.And(isok, inputs[0][0], inputs[Lb][0], z3.ULT(inputs[0][1], inputs[Lb][1])), "older blob holds a newer record")
+        if len(evs) >= 3:
+            P.cover(ex, res, o, z3.And(isok, *nblobs_nonempty[:3]), "three blobs contribute")
+        P.cover(ex, res, o, z3.Not(isok), "a blob failed")
+        return True
+
+    _check_paths(ex, res, outs, per_path)
+    need = ["two blobs contribute and a marker is present", "older blob holds a newer record", "a blob failed"]
+    if B >= 2:
+        need.append("three blobs contribute")
+    return P.finish(ex, res, need)
